@@ -198,7 +198,9 @@ type qhist struct {
 	e       *qenv
 	keys    []*ecdsa.PrivateKey
 	addrIDs map[string]int64 // external account address string -> model id
-	keyIDs  map[string]int64 // registered Pubkey bytes (hex) -> model id
+	keyIDs  map[string]int64 // registered Pubkey bytes (hex) -> model id = 1000 * (id of the EVM key the blob stands for) + encoding variant
+	ethIDs  map[string]int64 // EVM key (the 20 bytes the verifier takes from a Pubkey blob: its last 20) -> id
+	nEnc    map[int64]int64  // EVM key id -> number of non-canonical blobs seen for it
 	relIDs  map[string]int64 // relayer address -> model id
 	bodyIDs map[string]int64
 	reg     [nVals][]acctRow // what the harness believes is registered (mirrors successful registrations)
@@ -238,6 +240,28 @@ func (h *qhist) registeredKey(v int, chain, addr string) ([]byte, bool) {
 		}
 	}
 	return nil, false
+}
+
+// ethID: model id of the EVM key a signature is checked against (common.BytesToAddress of the Pubkey blob).
+func (h *qhist) ethID(a common.Address) int64 { return idOf(h.ethIDs, lower(a)) }
+
+// blobID: model id of a registered Pubkey blob.  The code compares blobs byte-wise (collision check, one signature per
+// key) but verifies against the last 20 bytes only, so several blobs stand for one EVM key: id = 1000 * ethID + variant
+// (variant 0 = the plain 20 bytes); the model's verifier looks at id / 1000 (Corr.C06.qverify).
+func (h *qhist) blobID(blob []byte) int64 {
+	k := hex.EncodeToString(blob)
+	if id, ok := h.keyIDs[k]; ok {
+		return id
+	}
+	a := common.BytesToAddress(blob)
+	e := h.ethID(a)
+	id := e * 1000
+	if k != hex.EncodeToString(a.Bytes()) {
+		h.nEnc[e]++
+		id += h.nEnc[e]
+	}
+	h.keyIDs[k] = id
+	return id
 }
 
 func (h *qhist) keyAddr(i int) common.Address { return crypto.PubkeyToAddress(h.keys[i].PublicKey) }
@@ -355,7 +379,7 @@ func (h *qhist) observe(after string) string {
 		seenVal, seenKey, seenRec := map[int64]bool{}, map[string]bool{}, map[common.Address]bool{}
 		for _, s := range iv.qm.GetSignData() {
 			v := h.valIdx(s.ValAddress)
-			sg = append(sg, emit.Pair(emit.ZI(v), emit.ZI(idOf(h.addrIDs, s.ExternalAccountAddress)), emit.ZI(idOf(h.keyIDs, hex.EncodeToString(s.PublicKey)))))
+			sg = append(sg, emit.Pair(emit.ZI(v), emit.ZI(idOf(h.addrIDs, s.ExternalAccountAddress)), emit.ZI(h.blobID(s.PublicKey))))
 			rec, ok := recoverAddr(bts, s.Signature)
 			if !ok || rec != common.BytesToAddress(s.PublicKey) {
 				id := "C06:stored-signature-invalid-for-current-bytes"
@@ -367,8 +391,10 @@ func (h *qhist) observe(after string) string {
 			if want, ok := h.regAt[fmt.Sprintf("%d/%d", iv.id, v)]; !ok || want != hex.EncodeToString(s.PublicKey) {
 				h.violate("C06:stored-key-not-the-registered-key", fmt.Sprintf("after %s: message %d stores key %x for validator #%d, registered key when it signed was %s", after, iv.id, s.PublicKey, v, want))
 			}
-			if seenVal[v] || seenKey[hex.EncodeToString(s.PublicKey)] || (ok && seenRec[rec]) {
+			if seenVal[v] || seenKey[hex.EncodeToString(s.PublicKey)] {
 				h.violate("C06:duplicate-validator-or-key", fmt.Sprintf("after %s: message %d has two signatures by the same validator or key (validator #%d, key %x)", after, iv.id, v, s.PublicKey))
+			} else if ok && seenRec[rec] {
+				h.violate("C06:queue-key-aliased-by-pubkey-encoding", fmt.Sprintf("after %s: message %d has two signatures made with one EVM key (%s) by two validators that registered it under different Pubkey encodings (this one: validator #%d, blob %x); the one-signature-per-key check and valset's collision check compare the blobs byte-wise, the verifier uses their last 20 bytes", after, iv.id, lower(rec), v, s.PublicKey))
 			}
 			seenVal[v], seenKey[hex.EncodeToString(s.PublicKey)] = true, true
 			if ok {
@@ -441,7 +467,7 @@ func classOf(err error) int64 {
 }
 
 func newQHist(t *testing.T, run *emit.Run) *qhist {
-	h := &qhist{t: t, run: run, e: newQEnv(t), addrIDs: map[string]int64{}, keyIDs: map[string]int64{}, relIDs: map[string]int64{},
+	h := &qhist{t: t, run: run, e: newQEnv(t), addrIDs: map[string]int64{}, keyIDs: map[string]int64{}, ethIDs: map[string]int64{}, nEnc: map[int64]int64{}, relIDs: map[string]int64{},
 		bodyIDs: map[string]int64{}, chainOf: map[uint64]string{}, vers: map[uint64][]version{}, regAt: map[string]string{}}
 	for i := 0; i < 7; i++ {
 		b := make([]byte, 32)
@@ -480,7 +506,7 @@ func (h *qhist) opRegister(v int, rows []acctRow) {
 	var rep []string
 	for _, r := range rows {
 		infos = append(infos, &valsettypes.ExternalChainInfo{ChainType: "evm", ChainReferenceID: r.chain, Address: r.addr, Pubkey: r.key})
-		coq = append(coq, emit.Pair(emit.ZI(qchainID(r.chain)), emit.ZI(idOf(h.addrIDs, r.addr)), emit.ZI(idOf(h.keyIDs, hex.EncodeToString(r.key))),
+		coq = append(coq, emit.Pair(emit.ZI(qchainID(r.chain)), emit.ZI(idOf(h.addrIDs, r.addr)), emit.ZI(h.blobID(r.key)),
 			emit.ZI(idOf(h.relIDs, lowerOf(r.addr)))))
 		rep = append(rep, fmt.Sprintf("%s %s %x", r.chain, r.addr, r.key))
 	}
@@ -501,7 +527,24 @@ func (h *qhist) opRegister(v int, rows []acctRow) {
 // (GetSigningKey compares the named address with the registered STRING, so the model's address id is per string).
 func (h *qhist) row(chain string, key int) acctRow {
 	a := h.keyAddr(key)
-	return acctRow{chain: chain, addr: spell(h.run.Rng, a), key: a.Bytes()}
+	return acctRow{chain: chain, addr: spell(h.run.Rng, a), key: h.encodeKey(a)}
+}
+
+// encodeKey: the Pubkey blob registered for an EVM key: the 20 address bytes (what pigeon sends) five times in six,
+// otherwise another byte string with the same last 20 bytes (left-padded to 32; behind a 0x04 marker and 44 other bytes).
+func (h *qhist) encodeKey(a common.Address) []byte {
+	switch h.run.Rng.Intn(12) {
+	case 0:
+		h.run.Count("pubkey-encoding", "left-padded-32")
+		return append(make([]byte, 12), a.Bytes()...)
+	case 1:
+		h.run.Count("pubkey-encoding", "marker+44+address")
+		b := append([]byte{4}, crypto.Keccak256(a.Bytes())...)
+		b = append(b, make([]byte, 12)...)
+		return append(b, a.Bytes()...)
+	}
+	h.run.Count("pubkey-encoding", "20-bytes")
+	return a.Bytes()
 }
 
 var bodyPool = [][]byte{{1}, {2}, {3, 4}}
@@ -596,7 +639,7 @@ func (h *qhist) opSign() {
 	if other != nil && r.Intn(7) == 0 {
 		addr, how = other.addr, "other-chain-account"
 		for i := range h.keys {
-			if hex.EncodeToString(h.keyAddr(i).Bytes()) == hex.EncodeToString(other.key) {
+			if h.keyAddr(i) == common.BytesToAddress(other.key) {
 				signer = i
 			}
 		}
@@ -607,7 +650,7 @@ func (h *qhist) opSign() {
 		addr = named.addr
 		how = "registered"
 		for i := range h.keys {
-			if hex.EncodeToString(h.keyAddr(i).Bytes()) == hex.EncodeToString(named.key) {
+			if h.keyAddr(i) == common.BytesToAddress(named.key) {
 				signer = i
 			}
 		}
@@ -636,7 +679,7 @@ func (h *qhist) opSign() {
 	case k < 4 && len(vs) > 1:
 		what = "stale"
 		ver := vs[r.Intn(len(vs)-1)]
-		bts, spec = ver.bytes, fmt.Sprintf("(C06.SOver %d %s)", idOf(h.keyIDs, hex.EncodeToString(h.keyAddr(signer).Bytes())), ver.coq)
+		bts, spec = ver.bytes, fmt.Sprintf("(C06.SOver %d %s)", h.ethID(h.keyAddr(signer)), ver.coq)
 	case k < 6 && len(h.items) > 1:
 		what = "other-message"
 		o := h.items[r.Intn(len(h.items))]
@@ -644,10 +687,10 @@ func (h *qhist) opSign() {
 			o = id
 		}
 		ver := h.vers[o][len(h.vers[o])-1]
-		bts, spec = ver.bytes, fmt.Sprintf("(C06.SOver %d %s)", idOf(h.keyIDs, hex.EncodeToString(h.keyAddr(signer).Bytes())), ver.coq)
+		bts, spec = ver.bytes, fmt.Sprintf("(C06.SOver %d %s)", h.ethID(h.keyAddr(signer)), ver.coq)
 	default:
 		ver := vs[len(vs)-1]
-		bts, spec = ver.bytes, fmt.Sprintf("(C06.SOver %d %s)", idOf(h.keyIDs, hex.EncodeToString(h.keyAddr(signer).Bytes())), ver.coq)
+		bts, spec = ver.bytes, fmt.Sprintf("(C06.SOver %d %s)", h.ethID(h.keyAddr(signer)), ver.coq)
 	}
 	sig, err := crypto.Sign(crypto.Keccak256(append([]byte(evmkeeper.SignaturePrefix), bts...)), h.keys[signer])
 	if err != nil {
